@@ -342,4 +342,18 @@ def model_cases(rng, n):
         elif r < 0.88: out.append((Op("ODot", [tt(N), tt(N2)]), "dot mode mismatch"))
         elif r < 0.94: out.append((Op("OBilinear", [tt(N), ttm(N2, N), tt(N)]), "bilinear mismatch"))
         else: out.append((Op("OPad", [tt(N), Scal("float", 0)], [[0, d]] + [[1, 1]] * (d + 1)), "pad too many paddings"))
+    # the TT layer called on an input whose trailing dimensions are not size_in (model: forward_call, theorem C18_forward_rejects)
+    from checks.c20 import Forward
+    for j in range(max(4, n // 8)):
+        d = rng.choice([1, 2, 3]); si = [rng.choice([2, 3, 4]) for _ in range(d)]; so = [rng.choice([1, 2, 3]) for _ in range(d)]
+        W = ttm(so, si); bias = Dense(ttgen.rand_core(rng, tuple(so), False, -2, 2))
+        kind = ["singleton mode", "wrong mode size", "fewer dimensions", "singleton mode under a batch dimension"][j % 4]
+        shp = list(si); k = rng.randrange(d)
+        if kind.startswith("singleton"): shp[k] = 1
+        elif kind == "wrong mode size": shp[k] = si[k] + 1
+        else: shp = shp[1:] if d > 1 else []
+        if kind.endswith("batch dimension"): shp = [2] + shp
+        if kind == "fewer dimensions" and not shp: shp = []          # a 0-d input to a one-mode layer
+        X = Dense(ttgen.rand_core(rng, tuple(shp), False, -2, 2) if shp else np.array(float(rng.randint(-2, 2))))
+        out.append((Forward(W, bias, X, "He"), "layer input: " + kind))
     return out
